@@ -1,5 +1,6 @@
 mod level_drv;
 mod model;
+mod queue_drv;
 mod sched;
 
 use serde_json::Value;
@@ -34,6 +35,14 @@ fn main() {
             write_lines(&args[3], &lines);
             if args.len() > 4 {
                 std::fs::write(&args[4], serde_json::to_string(&meta).unwrap()).unwrap();
+            }
+        }
+        "queue" => {
+            let scs = read_ndjson(&args[2]);
+            let lines = queue_drv::run_scenarios(&scs);
+            write_lines(&args[3], &lines);
+            if args.len() > 4 {
+                std::fs::write(&args[4], "[]").unwrap();
             }
         }
         x => {
